@@ -260,7 +260,7 @@ fn download(cl: &Client, peer: SocketAddr, c: &Case, file: &[u8], blk: usize, ws
             // stay silent: the first retransmission must not come before the acknowledged timeout
             out.classes.push("retransmission-timing-measured");
             let t0 = t_first_burst_done;
-            let limit = Duration::from_secs(timeout_s) + Duration::from_millis(2500);
+            let limit = Duration::from_secs(timeout_s) + Duration::from_millis(3500);
             let mut seen = None;
             while t0.elapsed() < limit {
                 if let Some((RDec::Ok(RPacket::Data { block, .. }), _, _)) = recv_dec(cl, Duration::from_millis(100)) {
@@ -461,11 +461,14 @@ pub fn strategy() -> BoxedStrategy<Case> {
 
 /// downloads whose window is larger than the default UDP socket buffer (212992 bytes)
 pub fn big_strategy() -> BoxedStrategy<Case> {
-    (any::<bool>(), prop::sample::select(vec![(1024u64, 256u64), (1428, 200), (512, 500), (8192, 40), (65464, 5), (4096, 100), (1024, 1000), (512, 65535), (8, 2000), (8, 65535), (16, 1025), (8, 1100), (32, 4096)]), 0usize..3, any::<u64>())
+    (any::<bool>(), prop::sample::select(vec![(1024u64, 256u64), (1428, 200), (512, 500), (8192, 40), (65464, 5), (4096, 100), (1024, 1000), (512, 65535), (8, 2000), (8, 65535), (16, 1025), (8, 1100), (32, 4096), (65464, 70), (32768, 140)]), 0usize..3, any::<u64>())
         .prop_map(|(single, (blk, ws), extra, seed)| {
             // more full blocks than fit into 212992 bytes, at most ~1.5 MB per burst
             let blocks_in_buf = (212_992 / blk) as usize;
-            let blocks = if blk <= 32 {
+            let blocks = if blk >= 32768 {
+                // a window of more than 4 MiB
+                ws as usize + 2
+            } else if blk <= 32 {
                 // tiny blocks: more than 1024 and more than 2048 blocks in one window
                 (1030 + extra * 1100).min(ws as usize + 2 + extra)
             } else {
